@@ -84,6 +84,34 @@ fn run_field<N: Fld>(case: &Case, mut o: Obs) -> Outcome {
             return o.fail("order() of a freshly built polynomial");
         }
     }
+    // conversions: make_complex / From keep coefficients and tolerance; From<scalar>; Zero
+    {
+        use num_traits::Zero;
+        let pc = p.make_complex();
+        if pc.order() != p.order() || pc.get_tolerance() != p.get_tolerance() || (0..n + 2).any(|k| pc.get_coefficient(k) != p.get_coefficient(k).to_c()) {
+            return o.fail("make_complex changes coefficients, order or tolerance");
+        }
+        let ps: Polynomial<N> = Polynomial::from(N::from_c(a[0]));
+        if ps.order() != 0 || ps.get_coefficient(0).to_c() != a[0] {
+            return o.fail("From<scalar> does not give the constant polynomial");
+        }
+        let zp: Polynomial<N> = Polynomial::zero();
+        if !zp.is_zero() || zp.order() != 0 {
+            return o.fail("Polynomial::zero() is not the zero polynomial");
+        }
+        let all_zero = a.iter().all(|v| v.re == 0.0 && v.im == 0.0);
+        if p.is_zero() != all_zero {
+            return o.fail("is_zero() disagrees with the coefficients");
+        }
+        let sum = (&p + &zp).get_coefficients();
+        if sum.len() != n || sum.iter().rev().zip(a.iter()).any(|(u, v)| u.to_c() != *v) {
+            return o.fail("p + 0 != p");
+        }
+        let pw: Polynomial<N> = Polynomial::with_capacity(8);
+        if !pw.is_zero() || pw.order() != 0 {
+            return o.fail("with_capacity() is not the zero polynomial");
+        }
+    }
     // evaluation
     let x = z(&case.x);
     let gam = |k: usize| 4.0 * (k as f64 + 2.0) * EPS;
